@@ -129,11 +129,31 @@ impl<A> NFA<A> {
         range_end: char,
         next: StateIdx,
     ) {
+        let (range_start, range_end) = (range_start as u32, range_end as u32);
+
+        // Ranges are stored as `u32`s and get split when they overlap with other ranges. Keep
+        // the surrogates out of a range that spans them, so that splitting never yields a range
+        // end that is not a `char`.
+        if range_start < 0xD800 && range_end > 0xDFFF {
+            self.add_u32_range_transition(state, range_start, 0xD7FF, next);
+            self.add_u32_range_transition(state, 0xE000, range_end, next);
+        } else {
+            self.add_u32_range_transition(state, range_start, range_end, next);
+        }
+    }
+
+    fn add_u32_range_transition(
+        &mut self,
+        state: StateIdx,
+        range_start: u32,
+        range_end: u32,
+        next: StateIdx,
+    ) {
         let mut set: Set<StateIdx> = Default::default();
         set.insert(next);
         self.states[state.0].range_transitions.insert(
-            range_start as u32,
-            range_end as u32,
+            range_start,
+            range_end,
             set,
             |values_1, values_2| values_1.extend(values_2),
         );
